@@ -203,6 +203,15 @@ def abstract_nl(e):
     return r
 
 
+def nl_axioms():
+    """commutativity of the abstracted products (argument order by ast id is not canonical for
+    equal-but-distinct terms)"""
+    x, y = z3.Reals("nlc_x nlc_y")
+    a, b = z3.Ints("nlc_a nlc_b")
+    return [z3.ForAll([x, y], _RMUL(x, y) == _RMUL(y, x), patterns=[_RMUL(x, y)]),
+            z3.ForAll([a, b], _IMUL(a, b) == _IMUL(b, a), patterns=[_IMUL(a, b)])]
+
+
 def _check(formulas, timeout_s):
     import threading
     s = z3.Solver()
@@ -257,7 +266,7 @@ def solve_job(i):
         tmo = T_CANARY if kind == "canary" else T_MAIN
         ga = ground_closure(specs, base)
         res = {"status": "unknown", "backend": "z3", "detail": "", "model_inputs": None}
-        s0, r0, dt0 = _check([abstract_nl(f) for f in base + ga], tmo)
+        s0, r0, dt0 = _check([abstract_nl(f) for f in base + ga] + nl_axioms(), tmo)
         log = ["stage0(z3,ground,products as UF):%s/%.2fs" % (r0, dt0)]
         if r0 == "unsat":
             res.update(status="unsat", backend="z3", time=time.time() - t0, detail=log[0])
